@@ -103,6 +103,39 @@ def _run_group(kind, terms, cancel_at, sess, rseed):
             return orig(data)
         sg.update_devices = upd
         base = loop.iterations
+        # some fast groups are not cancelled directly but by the master
+        # shutting down: leaving FastEtherCat.run() cancels every group
+        shutdown = kind == "fast" and rseed % 5 == 3
+        cm = None
+        if shutdown:
+            import ebpfcat.ebpfcat as em
+            import ebpfcat.ethercat as et
+            from contextlib import asynccontextmanager
+
+            class NoXDP:
+                """stands in for EtherXDP in run(): no netlink attach"""
+                programs = None
+
+                @asynccontextmanager
+                async def run(self, ifname):
+                    yield
+
+            async def noconnect(self):
+                pass
+            olds = (em.EtherXDP, et.EtherCat.connect)
+            em.EtherXDP, et.EtherCat.connect = NoXDP, noconnect
+            try:
+                cm = ec.run()
+                await cm.__aenter__()
+            finally:
+                em.EtherXDP, et.EtherCat.connect = olds
+            out["shutdown"] = True
+
+        def cancel():
+            if cm is not None:
+                asyncio.ensure_future(cm.__aexit__(None, None, None))
+            else:
+                task.cancel()
         task = sg.start()
         out["sg"], out["ts"], out["ec"] = sg, ts, ec
         prev = loop.on_iteration
@@ -112,13 +145,13 @@ def _run_group(kind, terms, cancel_at, sess, rseed):
             if cancel_at is not None and loop.iterations - base == cancel_at \
                     and not task.done():
                 out["cancelled_running"] = True
-                task.cancel()
+                cancel()
         loop.on_iteration = on_iter
         if cancel_at is None:
             while cycles[0] < 3 and not task.done():
                 await asyncio.sleep(0.002)
             out["cancelled_running"] = not task.done()
-            task.cancel()
+            cancel()
         try:
             await asyncio.wait_for(asyncio.shield(asyncio.gather(
                 task, return_exceptions=True)), 5)
@@ -196,6 +229,8 @@ def slow_fast(kind, params, res):
                 desc = dict(kind=kind, terms=terms, cancel_at=k, of=N)
                 res.case(desc, nontrivial=bool(out.get("cancelled_running")))
                 res.count(f"{kind}_points")
+                if out.get("shutdown"):
+                    res.count("fast_points_cancelled_by_master_shutdown")
                 why = judge(kind, terms, out, sess)
             if why:
                 key = "unexplained:" + kind + "-" + why[0]
@@ -252,7 +287,7 @@ def process_leg(params, res):
             t0 = time.time()
             verdict = None
             while not task.done():
-                await asyncio.sleep(0.05)
+                await asyncio.sleep(0.002)
                 # logical bound: the child keeps cycling although it was
                 # told to stop (hundreds of frames after the request)
                 if ec.ops.value - ops_at_cancel > 400 and \
@@ -267,12 +302,17 @@ def process_leg(params, res):
                 task.cancel()
                 await asyncio.gather(task, return_exceptions=True)
                 return verdict, running, None, ec.ops.value - ops_at_cancel
+            # the moment the task is over its subprocess must be over too
+            proc = getattr(sg, "process", None)
+            alive_at_done = bool(proc is not None and proc.is_alive())
             if task.cancelled():
                 oc = "cancelled"
             else:
                 ex = task.exception()
                 oc = f"raised {type(ex).__name__}: {str(ex)[:80]}" if ex \
                     else "returned"
+            if alive_at_done and oc == "cancelled":
+                oc = "cancelled-with-the-subprocess-still-running"
             sg.process.join(10)
             alive = sg.process.is_alive()
             if alive:
